@@ -21,7 +21,6 @@ import (
 	"os"
 	"os/exec"
 	"path/filepath"
-	"reflect"
 	"runtime/debug"
 	"sort"
 	"strings"
@@ -856,8 +855,8 @@ type blockCase struct {
 type snapCase struct {
 	Mode        string      `json:"mode"` // plain | compressed_fresh | compressed_converted | compress_option_on_plain_dir
 	Blocks      []blockCase `json:"blocks"`
-	Split       int         `json:"split"`        // blocks[:Split] before the first close, the rest after the first reopen
-	TimeTarget0 bool        `json:"time_target0"` // utxo.UTXO_WRITING_TIME_TARGET = 0 (write at full speed) instead of Close()'s hurry-up
+	Split       int         `json:"split"`            // blocks[:Split] before the first close, the rest after the first reopen
+	TimeTarget0 bool        `json:"time_target0"`     // utxo.UTXO_WRITING_TIME_TARGET = 0 (write at full speed) instead of Close()'s hurry-up
 	Yield       uint64      `json:"yield,omitempty"`  // != 0: the children run with VERIF_YIELD=<this> (seeded Gosched / <=200us sleeps at gocoin's vhook points)
 	Repeat      int         `json:"repeat,omitempty"` // witnesses of scheduling-dependent defects: run the scenario this many times
 }
@@ -1550,5 +1549,3 @@ func TestSnapshot(t *testing.T) {
 		}
 	})
 }
-
-var _ = reflect.TypeOf
